@@ -304,7 +304,7 @@ def rule_exit_status(ctx, R="C03.2"):
         others = [x for x in walk(fn["body"]) if x["k"] == "Path" and x["path"] == "ExitCode::SUCCESS" and id(x) not in tail_nodes]
         for o in others:
             cs = facts_str(conditions_to(fn["body"], o) or [])
-            ctx.check(R, "main/other-success-exit", any("input_files.is_empty()" in c for c in cs), "ExitCode::SUCCESS under %s" % cs, site(MAIN, o))
+            ctx.check(R, "main/other-success-exit", any("input_files.is_empty()" in c and not c.lstrip("(").startswith("!") for c in cs), "ExitCode::SUCCESS under %s: the only other successful exit is the help path (no input files)" % cs, site(MAIN, o))
     # StdoutWriter::write_reports
     w = None
     for q, f in fns_in_file(WR):
